@@ -548,8 +548,9 @@ MANIFEST = {
                    "returned data is the payload of a completely received frame / newline-terminated line of the peer's "
                    "stream (no_fabrication, through the C19 / C06 / C07 framing models); with max_retry >= 1 and the peer "
                    "accepting again inside the reconnect window the request returns the restarted peer's reply after one "
-                   "reconnect (recover); close is idempotent and never raises; the client loop is the C04 loop "
-                   "(refinement to Client.run). Tied to the code by a differential run of the real TCPLines / UnixLines / "
+                   "reconnect (recover, with the reconnect windows of the transports characterised); close is idempotent "
+                   "and never raises; request() with a client timeout never blocks for any retry budget; a dying reader "
+                   "task / the end of the stream wakes the blocked consumer in the C06 / C07 connection models. Tied to the code by a differential run of the real TCPLines / UnixLines / "
                    "DoIP / HSFZ transports, BaseTransport.reconnect and ECU over in-memory peers with a listener that is "
                    "down for a virtual delay: every byte offset of two reply streams per transport x 3 cut kinds x 3 event "
                    "times x restart {0, 0.3, 3, 12 s} x caller timeout {None, 0.5, 5 s} x {transport level, client level}."),
